@@ -31,6 +31,7 @@ META = {
 META["technique"] += '; emission-to-resync no-advance typestate; who-may-build-tokens audit with position-argument provenance'
 META["technique"] += '; polarity-aware path facts for the position guards; sentinel handling of the line searches; source hand-through in BaseLoader.load; unless/if parse comparator'
 META["technique"] += "; template-name provenance of errors raised from stored tokens (value objects that travel between templates)"
+META["technique"] += '; unconditional computed position properties in token.py'
 META["level_text"] += " Also decided (R1c, R4): the scan pointer does not move between a token's emission and the resync (no gap), and no token is built outside the lexer with a position of its own (only the position-less end-of-input token)."
 
 S, U, T = "synced", "unsynced", "unknown"
@@ -950,6 +951,30 @@ def run(prog: Program, res: Result) -> None:
     from checks.shared import check_load_hands_through
 
     check_load_hands_through(prog, res, "C17.R15", "source")
+    # ---------------------------------------------------------------- R17: computed positions do not depend on the token's kind
+    res.rule("C17.R17", "a token's span is the text its value was scanned from: the computed `start` / `stop` properties in token.py are one unconditional expression over the stored index and the length of the stored text (start = index, stop = index + len(value)) - a case for one kind of token (`+ 2` for the quotes of a string, whose index already lies after the opening quote) makes that kind overlap its neighbour")
+    tok_mod17 = prog.mod("liquid2/token.py")
+    n17 = 0
+    for ci17 in tok_mod17.classes.values():
+        for pn in ("start", "stop"):
+            pf = ci17.methods.get(pn)
+            if pf is None:
+                continue
+            body17 = [s_ for s_ in pf.node.body if not (isinstance(s_, ast.Expr) and isinstance(s_.value, ast.Constant))]
+            if not body17:
+                continue  # abstract declaration
+            n17 += 1
+            site = f"{tok_mod17.relpath}:{pf.node.lineno} {ci17.name}.{pn}"
+            what = f"{ci17.name}.{pn}: one unconditional expression over index and the stored text"
+            branches = [x for x in ast.walk(pf.node) if isinstance(x, (ast.If, ast.IfExp, ast.Match, ast.BoolOp))]
+            rets = [x for x in ast.walk(pf.node) if isinstance(x, ast.Return)]
+            consts = [x for r_ in rets for x in ast.walk(r_) if isinstance(x, ast.Constant) and isinstance(x.value, (int, float)) and not isinstance(x.value, bool)]
+            if branches or len(rets) != 1 or consts or "self.index" not in norm(rets[0], 200):
+                why = "branches on the token" if branches else ("adds a constant" if consts else "is not computed from self.index")
+                res.fail("C17.R17", file=tok_mod17.relpath, line=(branches or rets or [pf.node])[0].lineno, qualname=f"{ci17.name}.{pn}", construct=f"{ci17.name}.{pn} {why}", message=f"{ci17.name}.{pn} {why} (`{norm((branches or consts or rets)[0], 60)}`): the span of that kind of token is no longer index .. index + len(value) - a string token's index lies after its opening quote, so `+ 2` ends it one past the closing quote and into the next token (`'a'|upcase`)", what=what)
+            else:
+                res.ok("C17.R17", site, what, norm(rets[0].value, 50))
+    res.floor("C17.R17", "computed position properties", n17, 4)
     # ---------------------------------------------------------------- R16: a token that travels keeps its template's name with it
     res.rule("C17.R16", "an error raised from a *stored* token names the template that token belongs to: a value object that is created in one template's context and may be used while another template renders (the Undefined family: passed on as a `render` / `include` / macro argument) raises with the template name captured together with the token - otherwise render_with_context of the template in which the hook happens to fire fills in its own name, and the message shows `partial:1:18` over a line of the parent")
     node16 = [prog.cls("liquid2.ast.Node"), prog.cls("liquid2.expression.Expression"), prog.cls("liquid2.tag.Tag")]
